@@ -8,3 +8,23 @@ package internal
 // every call site (the assumed contracts are those of bytes.NewBuffer, fmt.Fprintf and Buffer.Bytes).
 //@ func Bprintf
 //@   inline
+
+// ---- shared specification functions: the proleptic Gregorian calendar ------------------------------------
+// Written from the property statements (C07, C09, C11), not from the code. Integers are mathematical.
+//@ pure func leap(y int) bool = fmod(y, 4) == 0 && (fmod(y, 100) != 0 || fmod(y, 400) == 0)
+//@ pure func dim(y int, m int) int = ite(m == 2, ite(leap(y), 29, 28), ite(m == 4 || m == 6 || m == 9 || m == 11, 30, 31))
+//@ pure func realDay(y int, m int, d int) bool = 1 <= m && m <= 12 && 1 <= d && d <= dim(y, m)
+//@ pure func daysBeforeYear(y int) int = 365*(y-1) + fdiv(y-1, 4) - fdiv(y-1, 100) + fdiv(y-1, 400)
+//@ pure func daysBeforeMonth(y int, m int) int = ite(m == 1, 0, ite(m == 2, 31, ite(m == 3, 59, ite(m == 4, 90, ite(m == 5, 120, ite(m == 6, 151,
+//@     ite(m == 7, 181, ite(m == 8, 212, ite(m == 9, 243, ite(m == 10, 273, ite(m == 11, 304, 334))))))))))) + ite(m > 2 && leap(y), 1, 0)
+//@ pure func ord(y int, m int, d int) int = daysBeforeYear(y) + daysBeforeMonth(y, m) + d
+
+// ---- decimal text ------------------------------------------------------------------------------------------
+//@ pure func pow10(k int) int = ite(k <= 0, 1, ite(k == 1, 10, ite(k == 2, 100, ite(k == 3, 1000, ite(k == 4, 10000, ite(k == 5, 100000,
+//@     ite(k == 6, 1000000, ite(k == 7, 10000000, ite(k == 8, 100000000, ite(k == 9, 1000000000, 10000000000))))))))))
+//@ pure func isDigit(c byte) bool = '0' <= c && c <= '9'
+// dig(v, k): the k-th decimal digit of v counted from the right, as an ASCII character (k must be a constant)
+//@ pure func dig(v int, k int) byte = '0' + byte(fmod(fdiv(v, pow10(k)), 10))
+// digits(w, from, n): the n (<= 9) bytes of w starting at from are ASCII digits; dec: their decimal value
+//@ pure func digits(w bytes, from int, n int) bool = forall i in 0..9 :: i < n ==> isDigit(w[from+i])
+//@ pure func dec(w bytes, from int, n int) int = sum i in 0..9 :: ite(i < n, (int(w[from+i]) - '0') * pow10(n-1-i), 0)
